@@ -1,7 +1,7 @@
 """Specification-side helpers for kernel normal forms (used by C01, C02, C03, C04, C05, C13, C14)."""
 from ..loader import AnalysisError
 from ..nf import Kernel, KFold, SELF_NEXT, SF, const_value
-from ..symx import show, simp, C, TRUE, FALSE, is_const, mk_mul, mk_add, key
+from ..symx import show, simp, C, TRUE, FALSE, is_const, mk_mul, mk_add, key, mentions
 
 ROLES = {"Player 1": "max", "Player 2": "min", "Probabilistic": "avg"}
 
@@ -82,6 +82,15 @@ def INIT_TERM(t):
     return p
 
 
+KNOWN_PURE = {"round", "abs", "len", "max", "min", "int", "float", "sum", "str", "bool", "math.floor", "math.log", "math.ceil", "math.log10", "pow", "divmod"}
+
+
+def opaque(t):
+    """The term contains the result of a call that was not resolved (unknown function value, helper that was not inlined,
+    method of another object): a mismatch with the specification proves nothing."""
+    return mentions(t, lambda x: x[0] in ("apply", "mcall") or (x[0] == "call" and x[1] not in KNOWN_PURE))
+
+
 def check_fold(chk, rule, where, kf, what, *, kind, term=None, sense=None, init_ok=None, source=SELF_NEXT,
                filt=TRUE, allow_neutral_filter=False, found_text=None, label=None, need_ties=True, strict_must=None):
     """Compare a canonical fold with a specification row. Returns True if discharged."""
@@ -113,6 +122,9 @@ def check_fold(chk, rule, where, kf, what, *, kind, term=None, sense=None, init_
         if sense and ext.sense != sense:
             probs.append("takes the %s where the %s is required" % (ext.sense, sense))
         t = ext.term if kind in ("ARGSET", "ARG") else kf.term
+        if term is not None and t != term and opaque(t):
+            chk.undecided(rule, where, "%s: the folded term `%s` goes through a call that is not resolved statically; equivalence with `%s` not established" % (what, show(t), show(term)))
+            return False
         if term is not None and t != term:
             probs.append("folds `%s`, specification folds `%s`" % (show(t), show(term)))
         if init_ok is not None and not init_ok(ext.init if kind in ("ARGSET", "ARG") else kf.init):
